@@ -153,6 +153,8 @@ func propC15(c *Ctx) {
 
 	propC15BinaryOp(c, tb, otypes)
 	propC15NeqNeg(c)
+	ru := c.Rule("unary", "in the VM's unary-operator routine every numeric arm of - and ^ applies the Go unary operator of its token to the operand itself", 5)
+	ruleUnary(c, ru)
 
 	ag := c.Rule("arith-guard", "every integer / and % is dominated by a non-zero test of the divisor, every shift by a signed count by a non-negative test (Go panics otherwise; the property demands ZeroDivisionError/TypeError instead of a Go panic)", 10)
 	ruleArithGuard(c, ag, c.L.RepoFuncs(func(pp string) bool { return pp == modPath }))
@@ -288,6 +290,16 @@ func summariseBO(tb *tabber, T, R types.Type, tok int64) boCell {
 					return true
 				}
 				sx, sy := sideOf(info, be.X, lc.St), sideOf(info, be.Y, lc.St)
+				if lc.Flipped {
+					// reached through a delegation that swapped the operands: this cell's L is the original right operand
+					sw := map[string]string{"L": "R", "R": "L"}
+					if v, ok := sw[sx]; ok {
+						sx = v
+					}
+					if v, ok := sw[sy]; ok {
+						sy = v
+					}
+				}
 				if ((sx == "L" && sy == "R") || (sx == "R" && sy == "L")) && arithOps[be.Op.String()] && (impureOperand(info, be.X) || impureOperand(info, be.Y)) {
 					bc.impure = append(bc.impure, exprShape(info, be, lc.St))
 				}
